@@ -399,10 +399,17 @@ class Inliner:
                     n._origin = g  # type: ignore[attr-defined]
         return pre, body
 
-    def _is_expr_function(self, g: FuncInfo) -> bool:
+    @staticmethod
+    def _body(g: FuncInfo) -> list[ast.stmt]:
         body = list(g.node.body)
         if body and isinstance(body[0], ast.Expr) and isinstance(body[0].value, ast.Constant):
             body = body[1:]
+        return body
+
+    def _is_expr_function(self, g: FuncInfo, plain: bool = False) -> bool:
+        """Single-assignment locals, optional guard returns ``if T: return A`` (unless ``plain``)
+        and a final ``return B``: the function denotes one (conditional) expression."""
+        body = self._body(g)
         if not body or not isinstance(body[-1], ast.Return) or body[-1].value is None:
             return False
         seen = set()
@@ -411,6 +418,8 @@ class Inliner:
                 nm = st.targets[0].id
             elif isinstance(st, ast.AnnAssign) and isinstance(st.target, ast.Name) and st.value is not None:
                 nm = st.target.id
+            elif not plain and isinstance(st, ast.If) and not st.orelse and len(st.body) == 1 and isinstance(st.body[0], ast.Return) and st.body[0].value is not None:
+                continue
             else:
                 return False
             if nm in seen or nm in g.params:
@@ -420,29 +429,34 @@ class Inliner:
 
     def _expr_of(self, g: FuncInfo, call: ast.Call, stack: tuple) -> ast.expr:
         bind = self._bind(g, call)
-        body = list(g.node.body)
-        if body and isinstance(body[0], ast.Expr) and isinstance(body[0].value, ast.Constant):
-            body = body[1:]
+        body = self._body(g)
+        has_guards = any(isinstance(st, ast.If) for st in body)
         env: dict[str, ast.expr] = {}
         for p, v in bind.items():
             uses = sum(1 for n in walk_local(g.node) if isinstance(n, ast.Name) and n.id == p and isinstance(n.ctx, ast.Load))
-            if not _is_simple(v) and uses > 1:
+            if not _is_simple(v) and uses > 1 and not has_guards:
                 raise _Bail("argument would be duplicated")
             env[p] = v
+        guards: list[tuple[ast.expr, ast.expr]] = []
         for st in body[:-1]:
+            if isinstance(st, ast.If):
+                guards.append((_Subst({}, dict(env)).visit(clone(st.test)), _Subst({}, dict(env)).visit(clone(st.body[0].value))))
+                continue
             val = st.value
             tgt = st.targets[0].id if isinstance(st, ast.Assign) else st.target.id
             uses = sum(1 for n in walk_local(g.node) if isinstance(n, ast.Name) and n.id == tgt and isinstance(n.ctx, ast.Load))
-            if uses > 1 and not _is_simple(val):
+            if uses > 1 and not _is_simple(val) and not has_guards:
                 raise _Bail("local would be duplicated")
             env[tgt] = _Subst({}, dict(env)).visit(clone(val))
         e = _Subst({}, env).visit(clone(body[-1].value))
+        for t, v in reversed(guards):
+            e = ast.IfExp(test=t, body=v, orelse=e)
         for n in ast.walk(e):
             if not hasattr(n, "lineno"):
                 ast.copy_location(n, call)
             if not hasattr(n, "_origin"):
                 n._origin = g  # type: ignore[attr-defined]
-        return e
+        return ast.fix_missing_locations(e)
 
     # -- statements
     def _stmts(self, fctx: FuncInfo, stmts: list[ast.stmt], stack: tuple, orig_stmts=None, caller_names: Optional[set[str]] = None) -> list[ast.stmt]:
@@ -474,7 +488,7 @@ class Inliner:
         if isinstance(st, (ast.Assign, ast.AnnAssign, ast.Return)) and isinstance(st.value, ast.IfExp) and not isinstance(getattr(st, "target", None), (ast.Tuple,)):
             ie, oie = st.value, ost.value
             arms = [(ie.body, oie.body), (ie.orelse, oie.orelse)]
-            if any(isinstance(a, ast.Call) and self._callee(fctx, oa, stack) is not None and not self._is_expr_function(self._callee(fctx, oa, stack)) for a, oa in arms):
+            if any(isinstance(a, ast.Call) and self._callee(fctx, oa, stack) is not None and not self._is_expr_function(self._callee(fctx, oa, stack), plain=True) for a, oa in arms):
                 def mk(val, oval):
                     if isinstance(st, ast.Assign):
                         n_, o_ = ast.Assign(targets=[clone(t) for t in st.targets], value=val), ast.Assign(targets=ost.targets, value=oval)
@@ -497,7 +511,7 @@ class Inliner:
                 t, ot, neg = t.operand, ot.operand, True
             if isinstance(t, ast.Call):
                 g = self._callee(fctx, ot, stack)
-                if g is not None and not self._is_expr_function(g):
+                if g is not None and not self._is_expr_function(g, plain=True):
                     try:
                         self._fctx = fctx
                         pre, body = self._prepare(g, t, caller_names, stack)
@@ -584,7 +598,7 @@ class Inliner:
                 src = getattr(node, "_src", None)
                 if src is not None and getattr(src, "_parent", None) is not None:
                     g = self._callee(fctx, src, stack)
-                    if g is not None and not self._is_expr_function(g):
+                    if g is not None and not self._is_expr_function(g, plain=True):
                         found = (par, fld, idx, node, src, g)
                         return
             for f2, v2 in ast.iter_fields(node):
